@@ -77,6 +77,12 @@ def _gen_steps(rng, cap, floaty, n_steps, preemptible):
             # what the holder's on_preempt callback does: nothing, or re-request from inside the callback
             # (a resumable job re-queues itself: same amount / one unit)
             st["on_pre"] = rng.choice([None, None, "reacq", "reacq", "reacq1"])
+            if cap >= 2 and rng.random() < 0.25:
+                # the job holds two grants at once; the on_preempt callback of one releases the other
+                # (a job that gives everything back when it loses a part)
+                a1 = rng.randint(1, cap - 1)
+                st.update({"op": "pair", "amt": a1, "amt2": rng.randint(1, cap - a1), "on_pre": "rel_other",
+                           "cb_on": rng.choice(["first", "second", "both"])})
         steps.append(st)
     return steps
 
@@ -163,6 +169,9 @@ def run_resource(case: dict) -> Result:
                 if not first or st["gap"]:
                     yield st["gap"] * TS
                 first = False
+                if st["op"] == "pair":
+                    yield from pair_step(wi, st)
+                    continue
                 r = led.request(wi, amount=st["amt"], prio=st.get("prio", 0), hold=st["hold"], how=st["op"])
                 grant = None
                 if st["op"] == "try":
@@ -185,17 +194,25 @@ def run_resource(case: dict) -> Result:
                 else:
                     try:
                         if pre:
-                            call_ctx.append({"avail": prim.available, "done": 0, "nested": 0, "req": r})
+                            ctx = {"avail": prim.available, "done": 0, "nested": 0, "req": r, "rel_other": False}
+                            call_ctx.append(ctx)
                             try:
                                 fut = prim.acquire(st["amt"], priority=st["prio"], preempt=st["preempt"],
                                                    on_preempt=_mk_on_preempt(r, st.get("on_pre")))
                             finally:
                                 call_ctx.pop()
                         else:
+                            ctx = None
                             fut = prim.acquire(st["amt"])
                     except ValueError as exc:
                         r.outcome = "error"
-                        flag("acquire-raises", kind_shape, f"acquire({st['amt']}) raised {exc!r} with capacity {cap}")
+                        if ctx is not None and ctx["rel_other"]:
+                            flag("acquire-raises", "on-preempt-callback-releases-other-grant",
+                                 f"acquire({st['amt']}, preempt={st['preempt']}) raised {exc!r} after a victim's on_preempt callback "
+                                 f"released its holder's other grant; available={prim.available} capacity={cap}")
+                            corrupt[0] = True
+                        else:
+                            flag("acquire-raises", kind_shape, f"acquire({st['amt']}) raised {exc!r} with capacity {cap}")
                         continue
                     r.fut = fut
                     r.blocked = not fut.is_resolved
@@ -236,12 +253,66 @@ def run_resource(case: dict) -> Result:
 
         return proc
 
+    def pair_step(wi, st):
+        """Hold two grants of the same resource at once; on_preempt of one releases the other."""
+        pair: list = []
+
+        def release_other(me):
+            def action():
+                for o in pair:
+                    if o is not me and o.fut is not None and o.fut.is_resolved and not o.fut.value.released:
+                        res.count("callback_releases_other_grant")
+                        ctx = call_ctx[-1] if call_ctx else None
+                        if ctx is not None:
+                            ctx["done"] += o.amount  # given back by its holder during the preemptor's call
+                        o.fut.value.release()
+                        if o.s_grant is not None and o.s_rel is None and o.outcome == "granted":
+                            led.released(o)
+            return action
+
+        for k, amt in enumerate((st["amt"], st["amt2"])):
+            r = led.request(wi, amount=amt, prio=st["prio"], hold=st["hold"], how="acq")
+            pair.append(r)
+            with_cb = st["cb_on"] == "both" or (st["cb_on"] == "first") == (k == 0)
+            call_ctx.append({"avail": prim.available, "done": 0, "nested": 0, "req": r, "rel_other": False})
+            try:
+                fut = prim.acquire(amt, priority=st["prio"], preempt=st["preempt"],
+                                   on_preempt=_mk_on_preempt(r, None, release_other(r) if with_cb else None))
+            except ValueError as exc:
+                r.outcome = "error"
+                shape = "on-preempt-callback-releases-other-grant" if call_ctx[-1]["rel_other"] else kind_shape
+                flag("acquire-raises", shape, f"acquire({amt}, preempt={st['preempt']}) raised {exc!r} with capacity {cap}")
+                corrupt[0] = call_ctx[-1]["rel_other"] or corrupt[0]
+                call_ctx.pop()
+                break
+            call_ctx.pop()
+            r.fut = fut
+            r.blocked = not fut.is_resolved
+            g = yield fut
+            led.granted(r)
+            r.extra = g
+            if g.preempted:
+                r.outcome = "preempted"
+                led.released(r)
+            elif g.released:
+                led.released(r)  # given back by the sibling's callback before this process resumed
+        yield st["hold"] * TS
+        for r in pair:
+            if r.fut is not None and r.fut.is_resolved:
+                r.fut.value.release()
+                if r.s_grant is not None and r.s_rel is None:
+                    led.released(r)
+
     call_ctx: list = []   # the acquire() call in progress (preemption only happens inside one)
     requeued: dict = {}   # rid of a preempted request -> the request its callback issued
 
-    def _mk_on_preempt(r, action=None):
+    def _mk_on_preempt(r, action=None, extra=None):
         def cb():
             preempt_seen[0] += 1
+            if extra is not None:
+                if call_ctx:
+                    call_ctx[-1]["rel_other"] = True
+                extra()
             if r.s_grant is not None and r.s_rel is None:
                 r.outcome = "preempted"
                 led.released(r)
@@ -305,7 +376,7 @@ def run_resource(case: dict) -> Result:
                 continue
             res.count("grants_checked")
             for a in unresolved:
-                if a.d_req < d and _key(a) < _key(b):
+                if a.d_req < d - 1 and _key(a) < _key(b):  # a was already waiting when this delivery began
                     flag(
                         "grant-out-of-order",
                         ("priority-then-arrival" if pre else "arrival-order") + "/" + kind_shape,
